@@ -10,7 +10,10 @@ use crate::prng::Rng;
 use crate::rm::decide::{Carrier, Stage, Verdict};
 use crate::run::{finish, preflight, Ctx, Report, Tally, Tier};
 
-pub const MUTATIONS: [&str; 30] = [
+pub const MUTATIONS: [&str; 33] = [
+    "structured-edit-path",
+    "structured-edit-query",
+    "structured-edit-header",
     "path-byte",
     "path-add-segment",
     "path-drop-segment",
@@ -399,7 +402,19 @@ pub fn shard(seed: u64, shard: u64, n: u64, tier: Tier) -> Tally {
         for (mi, m) in MUTATIONS.iter().enumerate() {
             for rep in 0..reps {
                 let mut mr = Rng::keyed(seed, "C01", m, shard * 1_000_003 + i, rep);
-                let (case, by_construction) = if *m == "wire-uri-byte" {
+                let (case, by_construction) = if m.starts_with("structured-edit-") {
+                    // grammar-aware edit of the request as sent (encoded-slash toggle, '=' escaped, ';' separators, near-miss
+                    // header names, dot segments …); the reference model says whether the edit is neutral
+                    let family = &m["structured-edit-".len()..];
+                    let pool: Vec<&&str> = crate::mutwire::EDITS.iter().filter(|e| e.starts_with(family)).collect();
+                    let mut c = pcase.clone();
+                    let e = **mr.pick(&pool);
+                    if !crate::mutwire::apply(e, &mut c.wire, &mut mr) {
+                        t.count(&format!("inapplicable/{}", m));
+                        continue;
+                    }
+                    (c, false)
+                } else if *m == "wire-uri-byte" {
                     // attacker edits one byte of the URI as sent
                     let mut c = pcase.clone();
                     let p = mr.usize_below(c.wire.uri.len());
@@ -623,7 +638,7 @@ pub fn run(tier: Tier) -> i32 {
         }
     }
     for m in MUTATIONS {
-        if matches!(m, "server-region" | "server-service" | "sig-length" | "token" | "carrier-move") {
+        if matches!(m, "server-region" | "server-service" | "sig-length" | "token" | "carrier-move" | "structured-edit-path" | "structured-edit-query" | "structured-edit-header") {
             // refused by an earlier check by design (scope, missing parts) or neutral; still counted and reported
             continue;
         }
